@@ -131,7 +131,7 @@ const HEX_REPL: [&[u8]; 9] = [
     b"",
 ];
 const BE16_REPL: [[u8; 2]; 6] = [[0, 0], [0, 1], [0, 125], [0, 126], [0x80, 0], [0xff, 0xff]];
-const BE64_REPL: [u64; 8] = [0, 1, 125, 65536, 1 << 32, (1 << 63) - 1, 1 << 63, u64::MAX];
+const BE64_REPL: [u64; 9] = [0, 1, 125, 65536, 1 << 32, 1 << 40, (1 << 63) - 1, 1 << 63, u64::MAX];
 const LEN7_REPL: [u8; 5] = [0, 1, 125, 126, 127];
 const TEXT_LENS: [usize; 6] = [0, 1, 69, 70, 71, 1000];
 
